@@ -857,7 +857,7 @@ def run(ctx: Ctx, a_ok: bool):
                 "Bilateral and Midline (with/without central, unknown); values from k/16, k/4, 0.0, None and the invalid "
                 "p=1.5/-0.25, a=-1/128, b=0/-0.5; non-trivial iff at least one set_params / set_distribution_params call "
                 "in the history succeeded and changed an observed keyword value or pmf")
-    n = 160 if ctx.tier == "quick" else 1500
+    n = 300 if ctx.tier == "quick" else 2000
     cases = [gen_case(ctx.rng, ctx.tier) for _ in range(n)]
     # fixed regression histories (the two repaired defects, aliasing, restore)
     cases += fixed_cases()
